@@ -960,7 +960,21 @@ def run_case(args):
     return out
 
 
+def normalise_case(c):
+    """`dud run --single-stage` WITHOUT targets runs the stages one by one in Go map iteration order, which is random:
+    with a stale upstream the outcome legitimately depends on that order. The explicit form (all stage paths, sorted)
+    has a defined order; generators' bare form is rewritten to it for the model and the implementation alike."""
+    ops = []
+    for op in c.get("ops", []):
+        if op[0] == "run" and op[1] and not op[2]:
+            op = ("run", True, sorted(sp for sp, st in c["stages"]))
+        ops.append(op)
+    c["ops"] = ops
+    return c
+
+
 def run_cases(dud, driver, cases, with_model=True, jobs=None, keep=False):
+    cases = [normalise_case(c) for c in cases]
     traces = model_traces(driver, cases) if with_model else {}
     opts = dict(scratch=scratch(), keep=keep)
     args = [(dud, driver, c, traces.get(c["id"]), opts) for c in cases]
